@@ -136,47 +136,50 @@ example : monthDayNoYear ⟨⟨2101, 1, 1⟩, 0⟩ 2 29 = (ofString "XXXX-02-29"
 example : monthDayNoYear ⟨⟨2020, 2, 29⟩, 0⟩ 2 29 = (ofString "XXXX-02-29", ⟨⟨2020, 2, 29⟩, 0⟩, ⟨⟨2016, 2, 29⟩, 0⟩) := by
   decide
 
-/-! ## month + spelled-out day ("february twenty second", "mayo veintiuno": `parse_number_with_month`)
+/-! ## month + spelled-out day ("february twenty second", "mayo veintiuno": `parse_number_with_month`) -/
 
-Full statement (FAILS, see `written_day_past_fails`): the same as for `generate_dates`. The code moves the *past*
-candidate to `year + 1` instead of `year − 1`. -/
-
-/-- Holds (time of day 00:00:00) when the stated day of the reference's year lies strictly before the reference
-date: past = this year's, future = next year's. -/
-theorem written_day_partial (R : DateTime) (hv : R.date.valid = true) (m d : Nat) (he : everyYear m d)
-    (hy1 : 2 ≤ R.date.y) (hy2 : R.date.y ≤ 9998) (hs : R.secs = 0)
-    (g : (⟨R.date.y, m, d⟩ : Date).ord < R.date.ord) :
-    numberWithMonth R m d = some (luisDateNoYear m d, ⟨⟨R.date.y + 1, m, d⟩, 0⟩, ⟨⟨R.date.y, m, d⟩, 0⟩) ∧
-    (⟨R.date.y, m, d⟩ : Date).valid = true ∧ (⟨R.date.y + 1, m, d⟩ : Date).valid = true ∧
-    R.date.ord ≤ (⟨R.date.y + 1, m, d⟩ : Date).ord := by
-  have s := numberWithMonth_both true R hv m d he hy1 hy2 hs
-  exact ⟨(s.2.2.2.2.2.1 g).1, s.1, s.2.1, s.2.2.2.2.1⟩
-
-/-- What the code computes otherwise (stated day on or after the reference date): the "past" candidate is next
-year's occurrence — later than the future candidate. -/
-theorem written_day_past_is_next_year (R : DateTime) (hv : R.date.valid = true) (m d : Nat) (he : everyYear m d)
-    (hy1 : 2 ≤ R.date.y) (hy2 : R.date.y ≤ 9998) (hs : R.secs = 0)
-    (g : R.date.ord ≤ (⟨R.date.y, m, d⟩ : Date).ord) :
-    numberWithMonth R m d = some (luisDateNoYear m d, ⟨⟨R.date.y, m, d⟩, 0⟩, ⟨⟨R.date.y + 1, m, d⟩, 0⟩) :=
-  ((numberWithMonth_both true R hv m d he hy1 hy2 hs).2.2.2.2.2.2 g).1
-
-/-- Negative witness: "february twenty second" asked on 2020-02-21 → future 2020-02-22, "past" 2021-02-22. -/
-theorem written_day_past_fails :
-    numberWithMonth ⟨⟨2020, 2, 21⟩, 0⟩ 2 22 = some (ofString "XXXX-02-22", ⟨⟨2020, 2, 22⟩, 0⟩, ⟨⟨2021, 2, 22⟩, 0⟩) := by
-  decide
-
-/-- The repaired variant (`year − 1`) gives the nearest past / next future occurrence (time of day 00:00:00). -/
+/-- The nearest past and the next future occurrence (time of day 00:00:00, as for `generate_dates`) — the code after
+`fix: a month with a spelled-out day takes its past candidate from the previous year` (151a4ac9b). -/
 theorem written_day_fixed (R : DateTime) (hv : R.date.valid = true) (m d : Nat) (he : everyYear m d)
     (hy1 : 2 ≤ R.date.y) (hy2 : R.date.y ≤ 9998) (hs : R.secs = 0) :
-    ∃ Y : Nat, numberWithMonthFixed R m d = some (luisDateNoYear m d, ⟨⟨Y + 1, m, d⟩, 0⟩, ⟨⟨Y, m, d⟩, 0⟩) ∧
+    ∃ Y : Nat, numberWithMonth R m d = some (luisDateNoYear m d, ⟨⟨Y + 1, m, d⟩, 0⟩, ⟨⟨Y, m, d⟩, 0⟩) ∧
       (⟨Y, m, d⟩ : Date).valid = true ∧ (⟨Y + 1, m, d⟩ : Date).valid = true ∧
       (⟨Y, m, d⟩ : Date).ord < R.date.ord ∧ R.date.ord ≤ (⟨Y + 1, m, d⟩ : Date).ord := by
-  have s := numberWithMonth_both true R hv m d he hy1 hy2 hs
+  have s := numberWithMonthPreFix_both true R hv m d he hy1 hy2 hs
   by_cases c : (⟨R.date.y, m, d⟩ : Date).ord < R.date.ord
   · exact ⟨R.date.y, (s.2.2.2.2.2.1 c).2, s.1, s.2.1, c, s.2.2.2.2.1⟩
   · have e1 : R.date.y - 1 + 1 = R.date.y := by omega
     refine ⟨R.date.y - 1, ?_, s.2.2.1, by rw [e1]; exact s.1, s.2.2.2.1, by rw [e1]; omega⟩
     rw [e1]; exact (s.2.2.2.2.2.2 (by omega)).2
 
+example : numberWithMonth ⟨⟨2020, 2, 21⟩, 0⟩ 2 22 =
+    some (ofString "XXXX-02-22", ⟨⟨2020, 2, 22⟩, 0⟩, ⟨⟨2019, 2, 22⟩, 0⟩) := by decide
+example : numberWithMonth ⟨⟨2020, 2, 23⟩, 0⟩ 2 22 =
+    some (ofString "XXXX-02-22", ⟨⟨2021, 2, 22⟩, 0⟩, ⟨⟨2020, 2, 22⟩, 0⟩) := by decide
+
+/-! ### REGRESSION (pre-fix code, before 151a4ac9b): the past candidate moved to `year + 1` -/
+
+/-- The pre-fix code was right (time of day 00:00:00) only when the stated day of the reference's year lies strictly
+before the reference date. -/
+theorem written_day_prefix_partial (R : DateTime) (hv : R.date.valid = true) (m d : Nat) (he : everyYear m d)
+    (hy1 : 2 ≤ R.date.y) (hy2 : R.date.y ≤ 9998) (hs : R.secs = 0)
+    (g : (⟨R.date.y, m, d⟩ : Date).ord < R.date.ord) :
+    numberWithMonthPreFix R m d = some (luisDateNoYear m d, ⟨⟨R.date.y + 1, m, d⟩, 0⟩, ⟨⟨R.date.y, m, d⟩, 0⟩) ∧
+    (⟨R.date.y, m, d⟩ : Date).valid = true ∧ (⟨R.date.y + 1, m, d⟩ : Date).valid = true ∧
+    R.date.ord ≤ (⟨R.date.y + 1, m, d⟩ : Date).ord := by
+  have s := numberWithMonthPreFix_both true R hv m d he hy1 hy2 hs
+  exact ⟨(s.2.2.2.2.2.1 g).1, s.1, s.2.1, s.2.2.2.2.1⟩
+
+/-- Otherwise the pre-fix "past" candidate was next year's occurrence — later than the future candidate. -/
+theorem written_day_prefix_past_is_next_year (R : DateTime) (hv : R.date.valid = true) (m d : Nat) (he : everyYear m d)
+    (hy1 : 2 ≤ R.date.y) (hy2 : R.date.y ≤ 9998) (hs : R.secs = 0)
+    (g : R.date.ord ≤ (⟨R.date.y, m, d⟩ : Date).ord) :
+    numberWithMonthPreFix R m d = some (luisDateNoYear m d, ⟨⟨R.date.y, m, d⟩, 0⟩, ⟨⟨R.date.y + 1, m, d⟩, 0⟩) :=
+  ((numberWithMonthPreFix_both true R hv m d he hy1 hy2 hs).2.2.2.2.2.2 g).1
+
+/-- Regression witness: "february twenty second" asked on 2020-02-21 → pre-fix future 2020-02-22, "past" 2021-02-22. -/
+theorem written_day_prefix_regression :
+    numberWithMonthPreFix ⟨⟨2020, 2, 21⟩, 0⟩ 2 22 =
+      some (ofString "XXXX-02-22", ⟨⟨2020, 2, 22⟩, 0⟩, ⟨⟨2021, 2, 22⟩, 0⟩) := by decide
 
 end RTV.DateUtils
